@@ -158,11 +158,16 @@ def r1(ctx):
         ctx.require(bool(ok), b, 'candidate|diag', 'diagonal: d[i-1][j-1] + usize::from(matching)', 'diagonal: %s' % show_in(b, v), s_arr.span)
         ctx.require(names == {'Match': True, 'NoMatch': False}, b, 'diag-op', 'diagonal op is Match iff the words match, else NoMatch',
                     'diagonal op selection: %s' % names, s_arr.span)
-    ok = (mx[0].callee_res() or '').endswith('Iterator::max_by')
+    sel = (mx[0].callee_res() or '')
+    ok = sel.endswith('Iterator::max_by') or sel.endswith('Iterator::max_by_key')
     if ok:
         clo = closure_of(ctx, sym(b, mx[0].args[1]))
         rv = ret_values(clo)
-        ok = len(rv) == 1 and match(core(rv[0][0]), Call('cmp', ('field', ('arg', 2, ANY), 0), ('field', ('arg', 3, ANY), 0)))
+        if sel.endswith('max_by_key'):
+            # max_by_key(|x| x.value): like max_by it returns the LAST maximal element
+            ok = len(rv) == 1 and match(core(rv[0][0]), ('field', ('arg', 2, ANY), 0))
+        else:
+            ok = len(rv) == 1 and match(core(rv[0][0]), Call('cmp', ('field', ('arg', 2, ANY), 0), ('field', ('arg', 3, ANY), 0)))
     ctx.require(ok, b, 'selector', 'selection = max_by(|x, y| x.value.cmp(y.value))', None, mx[0].span)
     # matrix shape and zero initialisation
     dd = [v for site, v in local_defs(b, R['d'])]
